@@ -926,7 +926,16 @@ impl Ctx {
     /// Write evidence, print result lines, return process exit code
     pub fn finish(mut self, level: &str, rule: &str) -> i32 {
         let wall = self.start.elapsed().as_secs_f64();
-        let noted = NOTED_KNOWN.lock().unwrap().clone();
+        let mut noted = NOTED_KNOWN.lock().unwrap().clone();
+        // aquatic_ws instances found stuck at start-up and replaced (known finding F17)
+        let stuck = crate::e2e::WS_STUCK_STARTS.load(std::sync::atomic::Ordering::SeqCst);
+        if stuck > 0 {
+            if self.known.entries.iter().any(|e| e.id == "F17" && e.property == self.property && e.status == "open") {
+                noted.insert("F17".to_string(), stuck);
+            } else {
+                self.assumptions.push(format!("{stuck} aquatic_ws instance(s) did not serve after start-up (known finding F17 of C17) and were replaced by fresh instances"));
+            }
+        }
         for (id, n) in noted.iter() {
             if let Some(k) = self.known.entries.iter().find(|e| &e.id == id) {
                 self.known_hits.insert(k.id.clone(), format!("{} (tolerated {} times in this run)", k.what, n));
